@@ -52,28 +52,28 @@ impl Qcow2IoSync {
 
     #[inline(always)]
     async fn write_at(&self, offset: u64, buf: &[u8]) -> Qcow2Result<()> {
-        let res = unsafe {
-            libc::pwrite(
-                self.fd,
-                buf.as_ptr() as *const libc::c_void,
-                buf.len(),
-                offset as libc::off_t,
-            )
-        };
+        // one short write isn't an error, but the data isn't written
+        // completely, so write the remainder, until it is done or fails
+        let mut done = 0;
+        while done < buf.len() {
+            let res = unsafe {
+                libc::pwrite(
+                    self.fd,
+                    buf[done..].as_ptr() as *const libc::c_void,
+                    buf.len() - done,
+                    (offset + done as u64) as libc::off_t,
+                )
+            };
 
-        if res < 0 {
-            Err("libc::pwrite failed".into())
-        } else {
-            if (res as usize) != buf.len() {
-                eprintln!(
-                    "short write: ask for {}, read {}, offset {:x}",
-                    buf.len(),
-                    res,
-                    offset
-                );
+            if res < 0 {
+                return Err("libc::pwrite failed".into());
             }
-            Ok(())
+            if res == 0 {
+                return Err("libc::pwrite wrote nothing".into());
+            }
+            done += res as usize;
         }
+        Ok(())
     }
 }
 
